@@ -6,7 +6,7 @@ s=$1; t=$2; d=/verif/seeded/$s
 wt=/tmp/vs/t_$s
 rm -rf $wt; git -C /repo worktree prune
 git -C /repo worktree add --detach $wt HEAD >/dev/null 2>&1
-cp $d/demo_test.rs $wt/rusty_basic/tests/$t.rs
+mkdir -p $wt/rusty_basic/tests; cp $d/demo_test.rs $wt/rusty_basic/tests/$t.rs
 b=$(cd $wt && CARGO_NET_OFFLINE=true cargo test --offline -j ${JOBS:-4} -p rusty_basic --features verif --test $t 2>&1 | grep -E "^test result" | head -1)
 git -C $wt apply $d/patch.diff
 m=$(cd $wt && CARGO_NET_OFFLINE=true cargo test --offline -j ${JOBS:-4} -p rusty_basic --features verif --test $t 2>&1 | grep -E "^test result" | head -1)
